@@ -37,7 +37,9 @@ META = {
                   "constructor arguments are excluded by hypothesis (host_acyclic): a directly self-referential one overflows "
                   "the Go stack, one that reaches itself through a list/dict is encoded without error and decodes to a graph "
                   "with two copies of it (both proved of the model and reproduced on the code; dawn's recursionPickler "
-                  "avoids them with a placeholder). heap_roundtrip's host part is for the object-preserving pair of the "
+                  "avoids them with a placeholder). This is the known finding key=host-object-reaches-itself: the second "
+                  "shape is a directed case of every run (its round-trip oracle failure is reported as KNOWN-FINDING, any "
+                  "other oracle failure is a VIOLATION), the first runs in a process of its own in the thorough tier. heap_roundtrip's host part is for the object-preserving pair of the "
                   "harness (host_pair), not for dawn's envPickler/envUnpickler, which rebuilds functions (C08/C01 territory). "
                   "Only *List/*Dict among Sequence/IterableMapping hosts. Transitivity of iso is not proved.",
     "design_ref": "DESIGN.md §6 C07",
